@@ -38,14 +38,14 @@ func c03Gen(rt *rapid.T) rigScenario {
 	if sc.Cfg.NumConn >= 2 && rapid.IntRange(0, 9).Draw(rt, "raceshape") < 4 {
 		// a tiny first frame, a long run of full frames, the close - nothing delivered yet; then the adaptive
 		// delivery that parks the run behind the missing first frame and lets the gap filler race the closing notice
-		nr := rapid.IntRange(1, 3).Draw(rt, "nraces")
+		nr := rapid.IntRange(1, 2).Draw(rt, "nraces")
 		for j := 0; j < nr && j < nStreams; j++ {
 			side := plans[j].closer
 			if side == 2 {
 				side = rapid.IntRange(0, 1).Draw(rt, "raceside")
 			}
 			sc.Ops = append(sc.Ops, rigOp{K: "write", Side: side, S: j, N: 1})
-			sc.Ops = append(sc.Ops, rigOp{K: "write", Side: side, S: j, N: rapid.IntRange(4, 24).Draw(rt, "racerun")*vMaxUnit - rapid.IntRange(0, 50).Draw(rt, "raceless")})
+			sc.Ops = append(sc.Ops, rigOp{K: "write", Side: side, S: j, N: rapid.IntRange(3, 12).Draw(rt, "racerun")*vMaxUnit - rapid.IntRange(0, 50).Draw(rt, "raceless")})
 			if rapid.Bool().Draw(rt, "racepark") {
 				sc.Ops = append(sc.Ops, rigOp{K: "read", Side: 1 - side, S: j, N: 70000})
 			}
